@@ -257,3 +257,68 @@ def run_c07(run, scratch, seed, tier):
 
 
 PROPS["C07"] = {"props_file": "C07.v", "run": run_c07}
+
+
+# ---------------------------------------------------------------- C03
+def scale_case(c, k):
+    """the same backtest with initial capital and every CapitalFlow amount multiplied by k"""
+    import copy
+    from gen_engine import hx
+    d = copy.deepcopy(c)
+    d["capital"] = hx(float.fromhex(c["capital"]) * k)
+
+    def walk_algo(a):
+        if a[0] == "capitalflow":
+            a[1] = hx(float.fromhex(a[1]) * k)
+        for x in a[1:]:
+            if isinstance(x, list) and x and isinstance(x[0], str):
+                walk_algo(x)
+            elif isinstance(x, list):
+                for y in x:
+                    if isinstance(y, list) and y and isinstance(y[0], str):
+                        walk_algo(y)
+
+    def walk(t):
+        if t[0] == "strat":
+            for a in t[4]:
+                walk_algo(a)
+            for kid in t[3]:
+                walk(kid)
+    walk(d["tree"])
+    d["name"] = c["name"] + "x%d" % k
+    return d
+
+
+def run_c03(run, scratch, seed, tier):
+    import backtest_corr
+    import gen_backtest
+    bst = backtest_suite(run, scratch, seed, sizes(tier, 250, 4000), oracle_fns=[("C03 index recurrence", oracles.c03_index)])
+    run.add_suite("backtest_runs", bst)
+    run.cov["rule"] = bst["rule"]
+    # metamorphic: fractional positions + size-proportional costs => the index does not depend on capital
+    base = [c for c in gen_backtest.gen_cases(seed + 1, sizes(tier, 120, 1500))
+            if not c["intpos"] and c["comm"][0] in ("none", "prop", "pershare") and c["tree"][2] is False]
+    pairs = [(c, scale_case(c, 4)) for c in base]
+    res = backtest_corr.run_cases([x for p in pairs for x in p], scratch)
+    by = {r[0]["name"]: r for r in res}
+    bad = 0
+    for c, d in pairs:
+        a, b = by[c["name"]][3], by[d["name"]][3]
+        if not a or not b or a["steps"][-1]["status"][1] != "ok" or b["steps"][-1]["status"][1] != "ok":
+            continue
+        pa = [common.tok_val(t) for t in a["steps"][-1]["state"]["r hg_prices"]]
+        pb = [common.tok_val(t) for t in b["steps"][-1]["state"]["r hg_prices"]]
+        if any(not oracles.near(x, y) for x, y in zip(pa, pb)):
+            bad += 1
+            if bad <= 2:
+                run.violation({"suite": "scale_pairs", "case": c, "scaled_case": d, "prices": pa, "prices_scaled": pb},
+                              "index depends on the amount of capital: %s vs x4" % c["name"])
+    run.add_suite("scale_pairs", {"evaluations": 2 * len(pairs), "distinct_nontrivial": len(pairs),
+                                  "traces_validated_against_impl": sum(1 for r in res if r[1] != "diff"),
+                                  "oracle_failures": bad,
+                                  "rule": "fractional positions, commission none / proportional / per-share: the same backtest "
+                                          "with capital and CapitalFlow amounts x4 must give the same root index (1e-9)",
+                                  "samples": [{"name": c["name"]} for c, _ in pairs[:2]]})
+
+
+PROPS["C03"] = {"props_file": "C03.v", "run": run_c03}
